@@ -147,7 +147,7 @@ func runC03SFU(t *testing.T, seed uint64, planJSON []byte, tier string) (res *Re
 		}
 		tape = simkit.NewTape(seed)
 	}
-	res.Harness = runBubble(t, func(t *testing.T) {
+	res.Harness = runBubbleP(t, plan, func(t *testing.T) {
 		r := setupAT(seed, tape, &plan.ATPlan, "C03", res)
 		if r == nil {
 			return
@@ -362,7 +362,7 @@ func runC03Two(t *testing.T, seed uint64, planJSON []byte, tier string) (res *Re
 		}
 		tape = simkit.NewTape(seed)
 	}
-	res.Harness = runBubble(t, func(t *testing.T) {
+	res.Harness = runBubbleP(t, plan, func(t *testing.T) {
 		r := setupAT(seed, tape, &plan.ATPlan, "C03", res)
 		if r == nil {
 			return
